@@ -16,7 +16,7 @@ func xtime(t time.Time) string {
 		return ""
 	}
 	_, off := t.Zone()
-	return fmt.Sprintf("%s|%d", t.Format("2006-01-02T15:04:05.00"), off)
+	return fmt.Sprintf("%s|%d", t.Format("2006-01-02T15:04:05.000000000"), off)
 }
 
 func strs(s []string) []string {
